@@ -576,7 +576,7 @@ Lemma run_ginv : forall tr s s', ginv s -> run s tr = Some s' -> ginv s'.
 Proof.
   induction tr as [|e tr IH]; simpl; intros s s' G H.
   - inversion H; subst; auto.
-  - destruct (step s e) eqn:E; [|discriminate]. eapply IH; eauto. eapply step_ginv; eauto.
+  - destruct (step s e) eqn:E; [|discriminate]. apply (IH s0 s'); auto. apply (step_ginv s e s0); auto.
 Qed.
 
 Lemma lock_mutex_any : forall id0 tr s, run (init id0) tr = Some s -> Mutex s.
@@ -708,6 +708,6 @@ Proof.
   destruct (run (init 0) stale_trace) as [s|] eqn:E; [|vm_compute in E; discriminate].
   exists s, 2, 1. split; auto. split.
   - apply run_injb_sound. apply init_ginv. vm_compute. reflexivity.
-  - vm_compute in E. inversion E; subst; clear E. unfold StaleUse. simpl.
+  - vm_compute in E. inversion E; subst; clear E. unfold StaleUse. vm_compute.
     repeat split; auto. discriminate.
 Qed.
